@@ -75,7 +75,6 @@ Fixpoint evalS (n : nat) (ft : ftab) (en : env) (o : list value) (e : sexp) : re
       match e with
       | SInt z => (Val (VInt z), o)
       | SSym x => (sym_value en x, o)
-      | SGlob x => (glob_value en x, o)
       | SList _ (SSym f :: args) =>
           match builtin_of f with
           | Some BProgn => eval_seqS (evalS n' ft) en o args VNil     (* the forms in order; the value(s) of the last *)
@@ -110,9 +109,7 @@ Fixpoint run_formsS (n : nat) (ft : ftab) (gv : env) (o : list value) (fs : list
   | TQuote nm :: r => run_formsS n ft gv o r (VSym nm)
   | TForm e :: r =>
       match parse_defun e with
-      (* the variable table is kept identical to the implementation's: entries without a value, which a
-         definition may create, are invisible to symbol evaluation and to defvar *)
-      | Some (nm, ps, body) => run_formsS n ((nm, (ps, body)) :: ft) (snd (globalize_body gv ps body)) o r (VSym nm)
+      | Some (nm, ps, body) => run_formsS n ((nm, (ps, body)) :: ft) gv o r (VSym nm)
       | None =>
           match parse_gdef e with
           | Some (always, nm, z) => run_formsS n ft (gdef gv always nm z) o r (VSym nm)
@@ -127,7 +124,7 @@ Fixpoint compile_defsS (ft : ftab) (gv : env) (fs : list tform) : ftab * env * l
   | TForm e :: r =>
       match parse_defun e with
       | Some (nm, ps, body) =>
-          let '(ft', gv', r') := compile_defsS ((nm, (ps, body)) :: ft) (snd (globalize_body gv ps body)) r in (ft', gv', TQuote nm :: r')
+          let '(ft', gv', r') := compile_defsS ((nm, (ps, body)) :: ft) gv r in (ft', gv', TQuote nm :: r')
       | None =>
           match parse_gdef e with
           | Some (always, nm, z) => let '(ft', gv', r') := compile_defsS ft (gdef gv always nm z) r in (ft', gv', TQuote nm :: r')
@@ -158,57 +155,15 @@ Fixpoint runS (n : nat) (s : sstate) (ops : list op) : list obs :=
   | o :: r => let (s', ob) := stepS n s o in (match ob with Some x => [x] | None => [] end) ++ runS n s' r
   end.
 
-(* ---- guard -------------------------------------------------------------------------------------
+(* ---- what is left of the guard -------------------------------------------------------------------
    (G1, removed) a redefinition used to be inside the guard only while the Lambda captured by the name's creator
-        was the registered one; since repo_fixes/C08-3 the creator always hands out the registered Lambda and
-        every definition is inside the guard.
+        was the registered one; since repo_fixes/C08-3 the creator always hands out the registered Lambda.
+   (G3, removed) a bare symbol as a body form had to be a parameter or an existing variable; since
+        repo_fixes/C08-4 Lambda.Compile leaves symbols alone.
+   Every program and every history of the modelled language is inside the guard: there is no guard predicate.
    (G2) an outcome is compared with S only when S does not say undefined-function: compiled code calls the
         placeholder, which evaluates the arguments first (known finding C08-undefined-args-first). *)
 (* S's verdict is binding when it is a value or a condition other than undefined-function; when S runs out
    of fuel it says nothing *)
 Definition comparable (r : res) : bool := match r with Err EUndefined => false | OutOfFuel => false | _ => true end.
 Definition is_val (r : res) : bool := match r with Val _ => true | _ => false end.
-
-(* (G3) every bare symbol among the body forms is a parameter or names a package variable that exists when
-   the definition is evaluated (so Lambda.Compile leaves it a symbol) *)
-Definition g_body (gv : env) (ps : list string) (body : list sexp) : bool :=
-  forallb (fun f => match f with SSym x => keep_sym gv ps x | _ => true end) body.
-Fixpoint guard_forms (n : nat) (st : state) (gv : env) (fs : list tform) : bool :=
-  match fs with
-  | [] => true
-  | TQuote _ :: r => guard_forms n st gv r
-  | TForm e :: r =>
-      match parse_defun e with
-      | Some (nm, ps, body) => g_body gv ps body && guard_forms n (defunM st nm ps body) gv r
-      | None =>
-          match parse_gdef e with
-          | Some (always, nm, z) => guard_forms n st (gdef gv always nm z) r
-          | None => match evalM n st gv e with (Val _, st1) => guard_forms n st1 gv r | _ => true end
-          end
-      end
-  end.
-Fixpoint guard_defs (st : state) (gv : env) (fs : list tform) : bool :=
-  match fs with
-  | [] => true
-  | TForm e :: r =>
-      match parse_defun e with
-      | Some (nm, ps, body) => g_body gv ps body && guard_defs (defunM st nm ps body) gv r
-      | None =>
-          match parse_gdef e with
-          | Some (always, nm, z) => guard_defs st (gdef gv always nm z) r
-          | None => guard_defs st gv r
-          end
-      end
-  | _ :: r => guard_defs st gv r
-  end.
-Definition guard_op (n : nat) (m : mstate) (o : op) : bool :=
-  match o with
-  | OLoad _ _ => true
-  | OCompile cid => match nlookup cid (codes m) with Some fs => guard_defs (ms m) (mgv m) fs | None => true end
-  | ORun cid => match nlookup cid (codes m) with Some fs => guard_forms n (set_out (ms m) []) (mgv m) fs | None => true end
-  end.
-Fixpoint guard_ops (n : nat) (m : mstate) (ops : list op) : bool :=
-  match ops with
-  | [] => true
-  | o :: r => guard_op n m o && guard_ops n (fst (stepM n m o)) r
-  end.
